@@ -48,6 +48,15 @@ def gen_cases(rng, tier):
                         c.op("hseek", r, "e", rng.choice([0, -1, 1, -L, -L - 1]))
                 c.op("hreadtoend", r)
                 c.op("hdrop", r)
+            # a walk whose entries vanish behind the iterator's back: the items whose metadata lookup then
+            # fails are errors, once each, and the stream goes on (sync iterator and async stream alike)
+            victims = [q for q in list(c.tree.dirs) + list(c.tree.files) if q]
+            if victims:
+                q = rng.choice(victims)
+                start = rng.choice([(), q[:-1], q[:1]]) if rng.random() < 0.6 else ()
+                c.op("walkrm", vfx.ps(t, hist.rel(start)) if start else "%d:" % t, rng.choice([0, 0, 1, 2, 3]),
+                     vfx.ps(t, hist.rel(q)))
+                c.op("snap", t)
             cases.append(c)
     # the two recorded differences of the in-memory backend, kept visible
     for i in range(2):
